@@ -35,7 +35,7 @@ KANI = [
     ("vkc07_crc_gate_len3", "crc.verify_crc_trailer_seek.too_short", "bounded", "file length 3", "total_len < 4 => Err"),
     ("vkc07_crc_gate_len4", "crc.verify_crc_trailer_seek.iff_len4", "bounded", "file length 4 (empty payload)",
      "Ok <=> CRC-32(bytes[..n-4]) == LE trailer"),
-    ("vkc07_crc_gate_len7", "crc.verify_crc_trailer_seek.iff_len7", "bounded", "file length 7 (3-byte payload)",
+    ("vkc07_crc_gate_len5", "crc.verify_crc_trailer_seek.iff_len5", "bounded", "file length 5 (1-byte payload)",
      "Ok <=> CRC-32(bytes[..n-4]) == LE trailer"),
     ("vkc07_crc_burst_detected", "crc.burst_le_32_bits_detected", "bounded", "6-byte payload; all burst offsets and patterns",
      "reference CRC: every non-zero burst of <= 32 bits changes crc(payload) xor trailer"),
